@@ -74,7 +74,13 @@ class Repo:
                 name = name[:-9]
             self.modules[rel] = Module(rel, name, text, tree, text.splitlines())
         from . import normalise
-        self.norm_log = normalise.apply(self.modules)
+        try:
+            self.norm_log = normalise.apply(self.modules)
+        except Exception as e:        # the pass is an optimisation of precision: if it fails the rules see the tree as written
+            for rel, m in list(self.modules.items()):
+                self.modules[rel] = Module(rel, m.name, m.text, ast.parse(m.text, filename=rel), m.lines)
+            self.norm_log = []
+            self.norm_error = f'{type(e).__name__}: {e}'
         if self.norm_log:
             for m in self.modules.values():
                 m.normalised = True
